@@ -150,6 +150,17 @@ def call_builtin(ip, fn, args, kwargs, lineno):
             else:
                 r = Min(r, x) if fn is min else Max(r, x)
         return r
+    if fn is next:
+        it = args[0]
+        if not isinstance(it, SymIter):
+            raise Unsupported("next() on %r" % (it,))
+        if c.branch(I(it.pos) < I(it.n), lineno):
+            v = it.pull(ip, it.pos)
+            it.pos = conc(I(it.pos) + 1)
+            return v
+        if len(args) > 1:
+            return args[1]
+        raise PathEnd("raise", "StopIteration")
     if fn is ord:
         return args[0] if is_sym(args[0]) else ord(args[0])      # a symbolic character is represented by its code
     if fn is chr:
@@ -1067,6 +1078,13 @@ def _dc_replace(ip, args, kwargs, lineno):
 # =======================================================================================
 # itertools (ASSUMED, exact): accumulate(repeat(c), f) is the stream A(0)=c, A(k+1)=f(A(k), c);
 # takewhile(pred, A) is the longest prefix on which pred holds (the prefix is finite: termination is ASSUMED)
+
+class SymIter:
+    """iterator over a symbolic sequence with a ghost position; pull(ip, p) may raise (PathEnd) to model a producer error"""
+
+    def __init__(self, n, pull, pos=0):
+        self.n, self.pull, self.pos = n, pull, pos
+
 
 class SymStream:
     def __init__(self, at, const=None):
